@@ -67,6 +67,65 @@ func (d *bReentrant) UnmarshalJSON(b []byte) error {
 	return json.Unmarshal(b, &d.Outer)
 }
 
+// named scalar types with their own JSON form: the round trip goes through THEIR methods
+type cPriority int
+
+func (p cPriority) MarshalJSON() ([]byte, error) {
+	return json.Marshal(map[cPriority]string{0: "low", 1: "high"}[p])
+}
+func (p *cPriority) UnmarshalJSON(b []byte) error {
+	var s string
+	if err := json.Unmarshal(b, &s); err != nil {
+		return err
+	}
+	switch s {
+	case "low":
+		*p = 0
+	case "high":
+		*p = 1
+	default:
+		return fmt.Errorf("unknown priority %q", s)
+	}
+	return nil
+}
+
+type cCents int64
+
+func (c cCents) MarshalJSON() ([]byte, error) { return json.Marshal(int64(c) / 100) }
+
+type cLevel int8
+
+func (l cLevel) MarshalText() ([]byte, error) { return []byte(fmt.Sprintf("L%d", int(l))), nil }
+func (l *cLevel) UnmarshalText(b []byte) error {
+	var n int
+	if _, err := fmt.Sscanf(string(b), "L%d", &n); err != nil {
+		return err
+	}
+	*l = cLevel(n)
+	return nil
+}
+
+type cRatio float64
+
+func (r cRatio) MarshalJSON() ([]byte, error) {
+	return json.Marshal(fmt.Sprintf("%.0f%%", float64(r)*100))
+}
+
+type cFlag bool
+
+func (f cFlag) MarshalJSON() ([]byte, error) {
+	if f {
+		return []byte(`"yes"`), nil
+	}
+	return []byte(`"no"`), nil
+}
+
+type cName string
+
+func (n cName) MarshalJSON() ([]byte, error) {
+	return json.Marshal(map[string]string{"name": string(n)})
+}
+
 func bindValues() []any {
 	one := 1
 	var nilT *bTagged
@@ -95,6 +154,7 @@ func bindValues() []any {
 		json.Number("12"), json.RawMessage(`{"id":5}`), struct{}{}, fmt.Errorf("e"),
 		map[string]any{"deep": map[string]any{"deeper": map[string]any{"deepest": []any{map[string]any{"x": 1}}}}},
 		"a<b>&c", map[string]any{"html": "<script>&amp;</script>", "id": 3}, []string{"<", ">", "&"}, bUntagged{ID: 1, Name: "R&D <x>"},
+		cPriority(1), cCents(1250), cLevel(3), cRatio(0.5), cFlag(true), cName("n"), []cPriority{0, 1}, map[string]cCents{"a": 250},
 	}
 }
 
@@ -154,6 +214,8 @@ func destSpecs() []destSpec {
 		{name: "*func()", mk: func(pre bool) any { var f func(); return &f }},
 		ptrTo("*time.Duration", val(time.Duration(0), time.Minute)), ptrTo("*myInt", val(myInt(0), myInt(3))), ptrTo("*myStr", val(myStr(""), myStr("pre"))),
 		ptrTo("*json.Number", val(json.Number(""), json.Number("1"))),
+		ptrTo("*cPriority", val(cPriority(0), cPriority(1))), ptrTo("*cCents", val(cCents(0), cCents(5))), ptrTo("*cLevel", val(cLevel(0), cLevel(2))),
+		ptrTo("*cRatio", val(cRatio(0), cRatio(1))), ptrTo("*cFlag", val(cFlag(false), cFlag(true))), ptrTo("*cName", val(cName(""), cName("pre"))),
 		{name: "*error", mk: func(pre bool) any { var e error; return &e }},
 		ptrTo("*struct{}", val(struct{}{}, struct{}{})),
 		ptrTo("*json.RawMessage", val(json.RawMessage(nil), json.RawMessage(`"pre"`))),
@@ -340,6 +402,7 @@ func genC16(tier string) []Scenario {
 	}
 	dests := destSpecs()
 	var out []Scenario
+	out = append(out, Scenario{Name: "bind after the stored value was changed in place (same object, same length), with and without setting it again", Direct: bindAfterMutation})
 	const chunks = 8
 	for c := 0; c < chunks; c++ {
 		c := c
@@ -386,4 +449,73 @@ func genC16(tier string) []Scenario {
 		}})
 	}
 	return out
+}
+
+// bindAfterMutation: Bind is the JSON round trip of what the value holds NOW.  The caller keeps
+// the object it stored (a map, a slice, a pointer to a struct), binds, changes the object in place
+// without changing its length, optionally sets it again, binds 1..3 more times: every bind equals
+// the round trip of the current contents, through the store and through a Result alike.  (The
+// destinations are of another type than the value: a destination of the value's own type is
+// assigned directly, which the value x destination matrix covers.)
+func bindAfterMutation(deadline time.Time) *core.Stats {
+	st := &core.Stats{ByCost: map[int]int64{}, Outcomes: map[string]int64{}}
+	type mut struct {
+		name   string
+		fresh  func() any
+		change func(v any)
+		dest   func() any
+	}
+	muts := []mut{
+		{"map value overwritten", func() any { return map[string]any{"id": 1, "name": "a"} }, func(v any) { v.(map[string]any)["id"] = 2 }, func() any { return &bTagged{} }},
+		{"map key swapped", func() any { return map[string]any{"id": 1, "name": "a"} }, func(v any) { m := v.(map[string]any); delete(m, "name"); m["tags"] = []any{"t"} }, func() any { return &bTagged{} }},
+		{"slice element overwritten", func() any { return []int{1, 2, 3} }, func(v any) { v.([]int)[0] = 9 }, func() any { return &[]int64{} }},
+		{"[]any element overwritten", func() any { return []any{"x", "a"} }, func(v any) { v.([]any)[1] = "b" }, func() any { return &[]string{} }},
+		{"pointed-to struct field overwritten", func() any { return &bUntagged{ID: 1, Name: "a"} }, func(v any) { v.(*bUntagged).Name = "b" }, func() any { return &map[string]any{} }},
+		{"map nested value overwritten", func() any { return map[string]any{"in": map[string]any{"id": 1}} }, func(v any) { v.(map[string]any)["in"].(map[string]any)["id"] = 5 }, func() any { return &bNested{} }},
+	}
+	complain := func(msg string) {
+		if len(st.Violations) < 10 {
+			st.Violations = append(st.Violations, core.Violation{Msgs: []string{msg}, Log: []string{msg}})
+		}
+	}
+	for _, mu := range muts {
+		for firstBinds := 0; firstBinds <= 2; firstBinds++ {
+			for _, setAgain := range []bool{false, true} {
+				for later := 1; later <= 2; later++ {
+					store := flyt.NewSharedStore()
+					v := mu.fresh()
+					store.Set("k", v)
+					for i := 0; i < firstBinds; i++ {
+						_ = store.Bind("k", mu.dest())
+					}
+					mu.change(v)
+					if setAgain {
+						store.Set("k", v)
+					}
+					for i := 0; i < later; i++ {
+						got, ref, viaResult := mu.dest(), mu.dest(), mu.dest()
+						err := store.Bind("k", got)
+						rerr := flyt.NewResult(v).Bind(viaResult)
+						b, merr := json.Marshal(v)
+						if merr == nil {
+							merr = json.Unmarshal(b, ref)
+						}
+						if (err == nil) != (merr == nil) || (err == nil && !reflect.DeepEqual(got, ref)) {
+							complain(fmt.Sprintf("%s (binds before the change: %d, set again: %v, bind #%d after it): store Bind gives %s (err %v), the JSON round trip of the current value gives %s (err %v)", mu.name, firstBinds, setAgain, i+1, snapshot(got), err, snapshot(ref), merr))
+						}
+						if (rerr == nil) != (err == nil) || (err == nil && !reflect.DeepEqual(got, viaResult)) {
+							complain(fmt.Sprintf("%s: store Bind gives %s (err %v) but Result.Bind of the same value gives %s (err %v)", mu.name, snapshot(got), err, snapshot(viaResult), rerr))
+						}
+					}
+					st.Executions++
+					st.Transitions += int64(firstBinds + later + 3)
+					st.Outcomes[fmt.Sprintf("%s/%d/%v", mu.name, firstBinds, setAgain)]++
+				}
+			}
+		}
+	}
+	st.TreeNodes = int64(len(muts))
+	st.ByCost[0] = st.Executions
+	st.SampleLog = []string{"Set(k, m); Bind(k, &d); m[id] = 2; Bind(k, &d) gives id 2"}
+	return st
 }
